@@ -159,7 +159,7 @@ def run_case(case, res):
                 how = case["reuse"]  # every zip save of the sequence into the same BytesIO / the same path
             before = DL.expected_state(doc, model)
             try:
-                artefact, pkg = DL.save_doc(doc, how, tmp, pretty=pretty, tag=str(i), reuse=reuse)
+                artefact, pkg = DL.save_doc(doc, how, tmp, pretty=pretty, tag=str(i) + str(case.get("name_key", "")), reuse=reuse)
             except Exception as e:
                 import traceback
 
@@ -233,6 +233,8 @@ def run(ctx, res):
         rng = ctx.rng(c)
         saves = [rng.choice(CONFIGS) for _ in range(rng.randint(1, 3))]
         case = {"source": DL.gen_source(rng), "edits": DL.gen_edits(rng, rng.choice([0, 1, 3]), allow=["touch_body", "touch_styles", "append_paragraph", "meta_title", "insert_style", "table_set_value", "add_file_io", "insert_image_frame", "touch_manifest"]), "saves": saves}
+        if rng.random() < 0.5:
+            case["name_key"] = "k%d" % rng.randrange(500)
         if rng.random() < 0.35:
             # the zip saves of the sequence all go to one target, larger archive first
             case["reuse"] = rng.choice(["zip-io", "zip-io", "zip-path"])
